@@ -5,6 +5,7 @@ import (
 	"bytes"
 	"encoding/json"
 	"fmt"
+	"hash/fnv"
 	"io"
 	"net/http"
 	"net/http/httptest"
@@ -578,7 +579,11 @@ func c28(r *engine.Run) {
 			if cls == "" {
 				cls = "base-request"
 			}
-			r.Fail(engine.Failure{Sig: k + ":" + cls, Detail: v.detail, Case: v.c})
+			sig := k + ":" + cls
+			hs := fnv.New32a()
+			hs.Write([]byte(sig))
+			// the short hash keeps the (truncated) replay file names of different signatures apart
+			r.Fail(engine.Failure{Sig: fmt.Sprintf("%06x:%s", hs.Sum32()&0xffffff, sig), Detail: v.detail, Case: v.c})
 		}
 	}
 
